@@ -267,10 +267,11 @@ int main(void)
 			put_named(mpt_named_traits(name, (int) b));
 			free(name);
 		}
-		else if (!strcmp(op, "alias") && drv_nw == 3) {
+		else if ((!strcmp(op, "alias") || !strcmp(op, "alias0")) && drv_nw == 3) {
+			/* alias0: without the `end` output */
 			const char *end = 0;
 			if (parse_name(drv_w[2], &name) || !name) { puts("bad-op"); continue; }
-			int r = mpt_alias_typeid(name, &end);
+			int r = mpt_alias_typeid(name, op[5] ? 0 : &end);
 			if (r < 0) printf("R refused | C - | I err=%s\n", drv_errname(r));
 			else printf("R id=%d end=%ld | C - | I -\n", r, end ? (long) (end - name) : -1L);
 			free(name);
